@@ -356,6 +356,9 @@ package agent
 //@   ensures gate_closed_buffers_a_copy [C29]: !open ==> logN("written") == wn0 && len(w.buf) == n0+1 && n == len(p) && err == nil &&
 //@       len(w.buf[n0]) == len(p) && forall(func(i int) bool { return 0 <= i && i < len(p) ==> w.buf[n0][i] == p[i] })
 //@   ensures earlier_chunks_kept [C29]: forall(func(j int) bool { return 0 <= j && j < n0 ==> sameSlice(w.buf[j], old(w.buf[j])) }) && allocatedElemsKept(p)
+//@   # what is buffered is a private copy: the caller (the log package) reuses its buffer for the next line
+//@   let chunk := w.buf[n0]
+//@   ensures buffered_chunk_is_private [C29]: !open ==> !old(arrayAllocated(chunk))
 //@ end
 
 // Flush is one critical section: every buffered chunk goes to the sink exactly once, in buffer order, before the lock
